@@ -39,39 +39,32 @@ from qtoggleserver.core import ports as core_ports
 async def check_loops(port: core_ports.BasePort, expression: Expression) -> None:
     seen_ports = {port}
 
-    async def check_loops_rec(level: int, e: Expression) -> int:
+    # The walk keeps its own stack instead of recursing: the depth of a chain of ports reading one another is only
+    # limited by the number of ports, while recursion is limited by the interpreter (RecursionError)
+    pending = [(1, expression)]
+    while pending:
+        level, e = pending.pop()
         if isinstance(e, PortValue):
             p = e.get_port()
             if not p:
-                return 0
+                continue
 
             # A loop is detected when we stumble upon the initial port at a level deeper than 1
             if port is p and level > 1:
-                return level
+                raise CircularDependency(port.get_id())
 
             # Avoid visiting the same port twice
             if p in seen_ports:
-                return 0
+                continue
 
             seen_ports.add(p)
 
             expr = p.get_expression()
             if expr:
-                lv = await check_loops_rec(level + 1, expr)
-                if lv:
-                    return lv
-
-            return 0
+                pending.append((level + 1, expr))
         elif isinstance(e, Function):
-            for arg in e.args:
-                lv = await check_loops_rec(level, arg)
-                if lv:
-                    return lv
-
-        return 0
-
-    if await check_loops_rec(1, expression) > 1:
-        raise CircularDependency(port.get_id())
+            # Reversed, so that arguments are visited from first to last
+            pending.extend((level, arg) for arg in reversed(e.args))
 
 
 from .exceptions import *
